@@ -236,3 +236,17 @@ Definition q_neg (x : Qc) : bool := q_dec x 0%Qc.
 Definition q_nonneg (x : Qc) : bool := negb (q_dec x 0%Qc).
 Definition q_min (a b : Qc) : Qc := if q_dec b a then b else a.
 Definition nn_greedy_q := nn_greedy Qc 0%Qc 0%Qc Qcplus Qcminus Qcmult Qcdiv q_min q_neg q_nonneg.
+
+(* rationals extended by +infinity (None): an instance in which `inf` is a genuine infinity *)
+Definition o_lift (f : Qc -> Qc -> Qc) (a b : option Qc) : option Qc :=
+  match a, b with Some x, Some y => Some (f x y) | _, _ => None end.
+Definition o_min (a b : option Qc) : option Qc :=
+  match a, b with Some x, Some y => Some (q_min x y) | Some x, None => Some x | None, _ => b end.
+Definition o_neg (a : option Qc) : bool := match a with Some x => q_neg x | None => false end.
+Definition o_nonneg (a : option Qc) : bool := match a with Some x => q_nonneg x | None => true end.
+Definition o_ltb (a b : option Qc) : bool :=
+  match a, b with Some x, Some y => q_dec x y | Some _, None => true | None, _ => false end.
+Definition o_scale (c : Qc) (a : option Qc) : option Qc := option_map (Qcmult c) a.
+Definition nn_greedy_o :=
+  nn_greedy (option Qc) (Some 0%Qc) (Some 0%Qc) (o_lift Qcplus) (o_lift Qcminus) (o_lift Qcmult) (o_lift Qcdiv)
+            o_min o_neg o_nonneg.
